@@ -6,14 +6,15 @@
 // usage: proc key=value ...
 //   file=<path>        log file (FileSink, mode 'w', pattern "%(message)")
 //   clock=sys|tsc      clock source of the logger
-//   sh=0|1             1: Backend::start<FrontendOptions>(opts, SignalHandlerOptions) else Backend::start(opts)
+//   sh=0|1|2           1: Backend::start<FrontendOptions>(opts, SignalHandlerOptions); 0: Backend::start(opts);
+//                      2: the first start is the plain one, every restart ('r') enables the signal handler
 //   sleep_us=<n>       backend sleep_duration in microseconds (0: the backend spins)
 //   sigto=<s>          SignalHandlerOptions::timeout_seconds
 //   pad=<n>            extra payload characters per statement
 //   wait_ms=<n>        length of a 'w' pause
-//   noise=0|1          a background thread 9 logging "t9:<n>" every ~150 us. It keeps running while a
-//                      crash signal is handled, and is parked before every other terminal action and
-//                      around stop/start cycles
+//   noise=0|1          a background thread 9 logging "t9:<n>" every ~150 us. It keeps running through
+//                      stop/start cycles, through the terminal Backend::stop() and while a crash signal
+//                      is handled; it is parked before exit(), return from main and SIGINT/SIGTERM
 //   script=<tok,...>   executed strictly in order, one token at a time (baton):
 //                        0|1|2   thread <d> logs its next statement "t<d>:<seq>" (thread 0 is main)
 //                        x1|x2   thread <d> returns from its thread function (it has finished)
@@ -28,6 +29,7 @@
 //
 // issue log records (one write(2) each, so records of different threads are totally ordered):
 //   "t<d>:<seq>"            written right after the log call of that statement returned
+//   "B <step>"              Backend::stop() of token <step> is about to be called
 //   "S <step> running=<b>"  Backend::stop() of token <step> returned and the file copy is complete
 //   "R <step> running=<b>"  the restart of token <step> returned
 //   "X <d>" / "J <d>"       thread about to return / joined
@@ -69,7 +71,9 @@ std::atomic<int> g_noise_cmd{0}; // 0 run, 1 park
 std::atomic<int> g_noise_parked{0};
 std::string g_file, g_act, g_pad;
 int g_actor = 0;
-bool g_sh = false, g_tsc = false, g_noise = false;
+int g_sh = 0; // see usage
+int g_starts = 0;
+bool g_tsc = false, g_noise = false;
 long g_sleep_us = 0, g_wait_ms = 10;
 unsigned g_sigto = 10;
 quill::Logger* g_logger = nullptr;
@@ -94,7 +98,9 @@ void start_backend()
   quill::BackendOptions bo;
   bo.sleep_duration = std::chrono::microseconds{g_sleep_us};
   bo.wait_for_queues_to_empty_before_exit = true;
-  if (g_sh)
+  bool const with_handler = (g_sh == 1) || (g_sh == 2 && g_starts > 0);
+  ++g_starts;
+  if (with_handler)
   {
     quill::SignalHandlerOptions sho;
     sho.timeout_seconds = g_sigto;
@@ -155,13 +161,6 @@ void park_noise()
   while (!g_noise_parked.load()) usleep(50);
 }
 
-void resume_noise()
-{
-  if (!g_noise) return;
-  g_noise_parked.store(0);
-  g_noise_cmd.store(0);
-}
-
 void noise_main()
 {
   for (int i = 0; i < 20000; ++i)
@@ -206,7 +205,9 @@ bool crash_action()
 // returns only for act=stop (and when a raise came back)
 void do_action()
 {
-  if (!crash_action()) park_noise();
+  // the noise thread keeps logging through Backend::stop() and through a crash signal; before exit(),
+  // return from main and SIGINT/SIGTERM (which run exit handlers and static destructors) it is parked
+  if (!crash_action() && g_act != "stop") park_noise();
   long vis = visible_lines();
   rec("A " + g_act + " actor=" + std::to_string(g_actor) + " visible=" + std::to_string(vis));
   if (g_act == "stop")
@@ -214,6 +215,7 @@ void do_action()
     quill::Backend::stop();
     copy_file(g_file + ".stop");
     rec(std::string("STOPPED running=") + (quill::Backend::is_running() ? "1" : "0"));
+    park_noise();
     return;
   }
   if (g_act == "exit") std::exit(0);
@@ -274,7 +276,7 @@ void exec_tok(int idx)
     rec("J " + std::to_string(k.thr));
     break;
   case 's':
-    park_noise();
+    rec("B " + std::to_string(idx));
     quill::Backend::stop();
     copy_file(g_file + ".s" + std::to_string(idx));
     rec("S " + std::to_string(idx) + " running=" + (quill::Backend::is_running() ? "1" : "0"));
@@ -282,7 +284,6 @@ void exec_tok(int idx)
   case 'r':
     start_backend();
     rec("R " + std::to_string(idx) + " running=" + (quill::Backend::is_running() ? "1" : "0"));
-    resume_noise();
     break;
   case 'w':
     usleep(static_cast<useconds_t>(g_wait_ms * 1000));
@@ -344,7 +345,7 @@ int main(int argc, char** argv)
   g_file = get("file", "");
   if (g_file.empty()) die("file= missing");
   g_tsc = get("clock", "sys") == "tsc";
-  g_sh = get("sh", "0") == "1";
+  g_sh = atoi(get("sh", "0").c_str());
   g_sleep_us = atol(get("sleep_us", "0").c_str());
   g_sigto = static_cast<unsigned>(atol(get("sigto", "10").c_str()));
   g_pad = std::string(static_cast<size_t>(atol(get("pad", "0").c_str())), 'x');
